@@ -44,6 +44,13 @@ def register(reg, P):
         mk(f"two_calls_dtype/{u}", (lambda u: (lambda: (lambda x, i: (g[f"f_two_dtype_{u}"](x), g[f"f_two_dtype_{u}"](i)))))(u), [((3,), F32), ((3,), I32)])
         mk(f"kwarg_traced/{u}", (lambda u: (lambda: (lambda x, y: g[f"f_kw_traced_{u}"](x, y=y) - g[f"f_kw_traced_{u}"](y, y=x))))(u), [((3,), F32), ((3,), F32)])
         mk(f"nested/{u}", (lambda u: (lambda: (lambda x: g[f"f_outer_{u}"](x) * g[f"f_inner_{u}"](x + 1.0))))(u), [((3,), F32)])
+        # same function instantiated inside another function AND at top level / in a sibling, with
+        # different signatures (name/identifier allocation across scopes), in both orders
+        mk(f"nested_then_top_diffsig/{u}", (lambda u: (lambda: (lambda t, e: (g[f"f_encoder_{u}"](t), g[f"f_scale_feat_{u}"](e)))))(u), [((2, 4), F32), ((2, 2), F32)])
+        mk(f"top_then_nested_diffsig/{u}", (lambda u: (lambda: (lambda t, e: (g[f"f_scale_feat_{u}"](e), g[f"f_encoder_{u}"](t)))))(u), [((2, 4), F32), ((2, 2), F32)])
+        mk(f"nested_siblings_diffsig/{u}", (lambda u: (lambda: (lambda t, e: (g[f"f_encoder_{u}"](t), g[f"f_encoder2_{u}"](e)))))(u), [((2, 4), F32), ((2, 2), F32)])
+        mk(f"nested_then_top_samesig/{u}", (lambda u: (lambda: (lambda t, e: (g[f"f_encoder_{u}"](t), g[f"f_scale_feat_{u}"](e)))))(u), [((2, 3), F32), ((2, 3), F32)])
+        mk(f"nested_then_top_symbolic/{u}", (lambda u: (lambda: (lambda t, e: (g[f"f_encoder_{u}"](t), g[f"f_scale_feat_{u}"](e)))))(u), [(("B", 4), F32), (("B", 2), F32)])
 
     # ---- nnx modules ----------------------------------------------------------------
     def module_pair(unique, differ, order):
@@ -246,3 +253,17 @@ def _define_plain_functions():
         install(f"f_kw_traced_{u}", kw_traced, unique)
         install(f"f_inner_{u}", inner, unique)
         install(f"f_outer_{u}", outer, unique)
+
+        def scale_feat(x):
+            w = jnp.arange(1, x.shape[-1] + 1, dtype=x.dtype)
+            return jnp.tanh(x) * w
+
+        def encoder(x, _u=u):
+            return globals()[f"f_scale_feat_{_u}"](x) + 1.0
+
+        def encoder2(x, _u=u):
+            return globals()[f"f_scale_feat_{_u}"](x * 2.0) - globals()[f"f_scale_feat_{_u}"](x)
+
+        install(f"f_scale_feat_{u}", scale_feat, unique)
+        install(f"f_encoder_{u}", encoder, unique)
+        install(f"f_encoder2_{u}", encoder2, unique)
